@@ -67,8 +67,11 @@ class RealRestoreWriteFileSystem(RestoreWriteFileSystem):
         # non-directory out of the way first. shutil.move would enter a
         # symlink to a directory, write through a symlink to a file and
         # refuse to put a directory (or a symlink) in the place of a file
-        if os.path.islink(dest) or (os.path.lexists(dest)
-                                    and not os.path.isdir(dest)):
+        # (not when there is nothing to move: an info file without payload,
+        # left by an interrupted restore, must not cost the file in place)
+        if os.path.lexists(path) and (
+                os.path.islink(dest) or (os.path.lexists(dest)
+                                         and not os.path.isdir(dest))):
             os.unlink(dest)
         return fs.move(path, dest)
 
